@@ -15,6 +15,10 @@ type Status int
 
 const (
 	OK Status = iota
+	// NotDecided: the extraction behind the obligation was incomplete (a value came out of
+	// code the engine does not model); no claim is made — reported as discharged with a
+	// "NOT DECIDED" reason and a note, never as a violation
+	NotDecided
 	Undecided
 	Fail
 )
@@ -51,6 +55,7 @@ type Engine struct {
 
 	tsum map[fnKey]*taintSum
 	lsum map[fnKey]*lockSum
+	fsum map[freshKey]*freshSum
 	obls map[oblKey]*Obl
 
 	all      []*ssa.Function // declared module functions with bodies
@@ -406,16 +411,23 @@ type lstate struct {
 	// re-entry); the matching releases are swallowed so that one defect is not
 	// reported a second time as a pairing failure
 	over map[Root]int
+	// unk: a function value that carries the address of this owner's mutex (a bound
+	// n.mu.Unlock / n.mu.Lock handed around) was called and could not be resolved: the
+	// lock state of the owner is not known from here on
+	unk map[Root]bool
 }
 
 func newState() *lstate {
-	return &lstate{held: map[Root]int8{}, pub: map[ssa.Value]bool{}, over: map[Root]int{}}
+	return &lstate{held: map[Root]int8{}, pub: map[ssa.Value]bool{}, over: map[Root]int{}, unk: map[Root]bool{}}
 }
 
 func (s *lstate) clone() *lstate {
-	o := &lstate{held: map[Root]int8{}, pub: map[ssa.Value]bool{}, allPub: s.allPub, defBad: s.defBad, over: map[Root]int{}}
+	o := &lstate{held: map[Root]int8{}, pub: map[ssa.Value]bool{}, allPub: s.allPub, defBad: s.defBad, over: map[Root]int{}, unk: map[Root]bool{}}
 	for k, v := range s.over {
 		o.over[k] = v
+	}
+	for k, v := range s.unk {
+		o.unk[k] = v
 	}
 	for k, v := range s.held {
 		o.held[k] = v
@@ -456,6 +468,15 @@ func joinInto(a, b *lstate) bool {
 	if b.allPub && !a.allPub {
 		a.allPub = true
 		ch = true
+	}
+	for k, v := range b.unk {
+		if v && !a.unk[k] {
+			if a.unk == nil {
+				a.unk = map[Root]bool{}
+			}
+			a.unk[k] = true
+			ch = true
+		}
 	}
 	for k, v := range b.over {
 		if v > a.over[k] {
@@ -648,6 +669,8 @@ func (e *Engine) what(t Taint) string {
 // per-body flow analysis
 
 type bodyAn struct {
+	sharedVia *ssa.Parameter // set by fresh(): the value traces to this parameter
+	sharedWhy string         // set by fresh(): a constructor positively publishes its result
 	e         *Engine
 	u         *unit
 	fn        *ssa.Function
@@ -833,6 +856,19 @@ func (a *bodyAn) access(st *lstate, in ssa.Instruction, t Taint, write bool, tex
 	}
 	m := st.held[t.Root]
 	mu := a.rootName(t.Root) + "." + sp.Mu.Name()
+	if st.unk[t.Root] && m != 2 && (m < 1 || write) {
+		why := "NOT DECIDED — a function value bound to " + mu + " was called before this access and could not be resolved: the lock state is not known here"
+		a.e.rec(RLockset, a.fn, in, text, NotDecided, why)
+		if write {
+			a.e.rec(RExclusive, a.fn, in, text, NotDecided, why)
+		}
+		if a.ctx.allowed {
+			a.e.rec(RWho, a.fn, in, text, OK, "reached from a method of "+sp.Owner.Obj().Name())
+		} else {
+			a.e.rec(RWho, a.fn, in, text, Fail, fmt.Sprintf("guarded memory (%s) is touched outside the methods of %s", a.e.what(t), sp.Owner.Obj().Name()))
+		}
+		return
+	}
 	switch {
 	case m >= 1:
 		a.e.rec(RLockset, a.fn, in, text, OK, fmt.Sprintf("%s of guarded memory with %s %s", kind, mu, modeName(m)))
@@ -909,10 +945,51 @@ func (a *bodyAn) fresh(v ssa.Value, root Root, depth int) (bool, string) {
 		if callee := x.Call.StaticCallee(); callee != nil && extName(callee) == "slices.Clone" {
 			return true, ""
 		}
+		return a.freshCall(x, 0, root, depth)
+	case *ssa.Extract:
+		if call, ok := x.Tuple.(*ssa.Call); ok {
+			return a.freshCall(call, x.Index, root, depth)
+		}
 	case *ssa.Parameter:
+		a.sharedVia = x
 		return false, "parameter " + x.Name() + " (the caller keeps a reference)"
 	}
 	return false, fmt.Sprintf("value %s of unknown provenance", v.Name())
+}
+
+// freshCall: the value is result #idx of a declared in-module function (a
+// constructor such as newNameRecord(...), possibly a closure of this unit). It is
+// fresh when the callee's summary says the result is the callee's own unleaked
+// allocation, modulo parameters whose arguments are judged here.
+func (a *bodyAn) freshCall(call *ssa.Call, idx int, root Root, depth int) (bool, string) {
+	callee := call.Call.StaticCallee()
+	if callee == nil {
+		return false, fmt.Sprintf("value %s is the result of a call that is not resolved statically", call.Name())
+	}
+	if callee.Blocks == nil || !a.e.Spec.InModule(callee) {
+		return false, fmt.Sprintf("value %s is the result of %s, whose result is not known to be fresh", call.Name(), extName(callee))
+	}
+	sum := a.e.resultFresh(callee, idx, 0)
+	if !sum.ok {
+		if sum.shared != "" {
+			a.sharedWhy = sum.shared
+		}
+		return false, fmt.Sprintf("result of %s: %s", a.e.Spec.FuncName(callee), sum.why)
+	}
+	var ps []int
+	for i := range sum.params {
+		ps = append(ps, i)
+	}
+	sort.Ints(ps)
+	for _, i := range ps {
+		if i >= len(call.Call.Args) {
+			return false, fmt.Sprintf("argument #%d of %s is missing", i, a.e.Spec.FuncName(callee))
+		}
+		if ok, why := a.fresh(call.Call.Args[i], root, depth+1); !ok {
+			return false, fmt.Sprintf("%s stores its argument #%d in the value it returns: %s", a.e.Spec.FuncName(callee), i, why)
+		}
+	}
+	return true, ""
 }
 
 func (a *bodyAn) inbound(st *lstate, in ssa.Instruction, val ssa.Value, root Root, text string) {
@@ -920,6 +997,7 @@ func (a *bodyAn) inbound(st *lstate, in ssa.Instruction, val ssa.Value, root Roo
 		return
 	}
 	o := a.u.originsOf(val)
+	a.sharedVia, a.sharedWhy = nil, ""
 	ok, why := a.fresh(val, root, 0)
 	switch {
 	case ok:
@@ -928,8 +1006,14 @@ func (a *bodyAn) inbound(st *lstate, in ssa.Instruction, val ssa.Value, root Roo
 		a.recf(REscape, in, "inbound "+text, OK, "parameter stored into the table by an unexported helper: freshness is checked at each call site")
 	case len(o.params) > 0 && len(o.other) == 0:
 		a.recf(REscape, in, "inbound "+text, Fail, "a reference supplied by the caller is stored into guarded memory (%s): the caller can keep mutating it without the lock", why)
+	case a.sharedVia != nil && a.ctx.top && a.sharedVia.Parent() == a.u.top:
+		// positively observed through a constructor: newRecord(…, owners) keeps the caller's slice
+		a.recf(REscape, in, "inbound "+text, Fail, "a reference supplied by the caller reaches guarded memory through a constructor (%s): the caller can keep mutating it without the lock", why)
+	case a.sharedWhy != "":
+		a.recf(REscape, in, "inbound "+text, Fail, "the reference stored into guarded memory is shared: %s", a.sharedWhy)
 	default:
-		a.recf(REscape, in, "inbound "+text, Undecided, "cannot show that the reference stored into guarded memory is not shared (%s)", why)
+		// nothing shared was observed; the value came out of code the engine does not model
+		a.recf(REscape, in, "inbound "+text, NotDecided, "NOT DECIDED — the provenance of the reference stored into guarded memory was not followed to an allocation or a parameter (%s)", why)
 	}
 	// record allocations become table records from here on
 	for al := range o.allocs {
@@ -1023,7 +1107,7 @@ func (a *bodyAn) transfer(st *lstate, in ssa.Instruction) {
 		a.applyGo(st, i)
 	case *ssa.RunDefers:
 		if st.defBad {
-			a.recf(RPairing, in, "deferred calls", Undecided, "the set of deferred calls differs between the paths reaching this exit (defer under a condition or in a loop)")
+			a.recf(RPairing, in, "deferred calls", NotDecided, "NOT DECIDED — the set of deferred calls differs between the paths reaching this exit (defer under a condition or in a loop)")
 		}
 		for k := len(st.defers) - 1; k >= 0; k-- {
 			d := st.defers[k]
@@ -1089,7 +1173,7 @@ func (a *bodyAn) storeEscape(st *lstate, in ssa.Instruction, addr ssa.Value, vs 
 		}
 	}
 	if onlyMu {
-		a.recf(RPairing, in, "mutex address stored", Undecided, "the address of the mutex is stored in memory; lock operations through it cannot be followed")
+		a.recf(RPairing, in, "mutex address stored", NotDecided, "NOT DECIDED — the address of the mutex is stored in memory; lock operations through it cannot be followed")
 		return
 	}
 	if fa, ok := u.resolve(addr).(*ssa.FieldAddr); ok && a.e.Spec.isOwner(derefT(fa.X.Type())) {
@@ -1108,6 +1192,10 @@ func (a *bodyAn) atReturn(st *lstate, r *ssa.Return) {
 				continue
 			}
 			a.sum.touched[root] = true
+			if st.unk[root] {
+				a.recf(RPairing, nil, a.pairText(root), NotDecided, "NOT DECIDED — a function value bound to the mutex (an unlock function handed around) is called in this function and could not be resolved; whether the lock is released at %s is not known", a.e.Spec.Pos(instrPos(r)))
+				continue
+			}
 			if m == -1 {
 				a.recf(RPairing, nil, a.pairText(root), Fail, "at the return at %s the lock is held on some paths and not on others (an unlock is missing on a path, or is conditional)", a.e.Spec.Pos(instrPos(r)))
 			} else {
@@ -1192,7 +1280,7 @@ func (a *bodyAn) lockOp(st *lstate, in ssa.Instruction, root Root, op string) {
 	case "RUnlock":
 		release(1)
 	default:
-		a.recf(RPairing, in, mu+"."+op+"()", Undecided, "%s is not modelled (conditional acquisition / lock handed out)", op)
+		a.recf(RPairing, in, mu+"."+op+"()", NotDecided, "NOT DECIDED — %s is not modelled (conditional acquisition / lock handed out)", op)
 	}
 }
 
@@ -1240,16 +1328,25 @@ func (a *bodyAn) applyCall(st *lstate, in ssa.Instruction, c *ssa.CallCommon, de
 		a.builtin(st, in, b.Name(), c)
 		return
 	}
+	if !c.IsInvoke() {
+		// unlock := n.mu.Unlock; defer unlock()
+		if _, isFn := c.Value.(*ssa.Function); !isFn {
+			if op, root, ok := a.muClosure(c.Value, 0); ok {
+				a.lockOp(st, in, root, op)
+				return
+			}
+		}
+	}
 	callee := u.calleeOf(c)
 	if callee == nil && !c.IsInvoke() {
 		// a function literal of the caller, called through this function's parameter
 		if prm, ok := u.canon(c.Value).(*ssa.Parameter); ok && a.ctx.fnArgs[prm] != nil {
 			ca := a.ctx.fnArgs[prm]
 			if ts, ok := a.taintedArgs(c); ok {
-				a.recf(REscape, in, "call of a function-valued parameter", Undecided, "a guarded alias (%s) is passed to a function literal supplied by the caller; its use there is not followed", e.describe(ts))
+				a.recf(REscape, in, "call of a function-valued parameter", NotDecided, "NOT DECIDED — a guarded alias (%s) is passed to a function literal supplied by the caller; its use there is not followed", e.describe(ts))
 			}
 			fwd := map[Root]Root{}
-			s2 := &lstate{held: map[Root]int8{}, pub: map[ssa.Value]bool{}, allPub: true, over: map[Root]int{}}
+			s2 := &lstate{held: map[Root]int8{}, pub: map[ssa.Value]bool{}, allPub: true, over: map[Root]int{}, unk: map[Root]bool{}}
 			for r, m := range st.held {
 				if cr, ok := ca.back[r]; ok {
 					s2.held[cr] = m
@@ -1265,13 +1362,34 @@ func (a *bodyAn) applyCall(st *lstate, in ssa.Instruction, c *ssa.CallCommon, de
 			return
 		}
 	}
+	if callee == nil && !c.IsInvoke() {
+		// unlock := n.mu.Unlock; defer unlock() / defer n.lock()() where lock() returns n.mu.Unlock
+		if op, root, ok := a.muClosure(c.Value, 0); ok {
+			a.lockOp(st, in, root, op)
+			return
+		}
+		onlyMu := true
+		any := false
+		for t := range u.get(c.Value) {
+			if t.K == KMu {
+				any = true
+				st.unk[t.Root] = true
+			} else {
+				onlyMu = false
+			}
+		}
+		if any && onlyMu && len(c.Args) == 0 {
+			a.recf(RPairing, in, "call of a function value bound to the mutex", NotDecided, "NOT DECIDED — the called function value carries the address of the mutex but is not a directly readable bound Lock/Unlock method value; its effect on the lock is not followed")
+			return
+		}
+	}
 	if callee == nil {
 		if ts, ok := a.taintedArgs(c); ok {
-			a.recf(REscape, in, callText(c, nil, sp.FuncName), Undecided, "a guarded alias (%s) is passed to a call that cannot be resolved statically", e.describe(ts))
+			a.recf(REscape, in, callText(c, nil, sp.FuncName), NotDecided, "NOT DECIDED — a guarded alias (%s) is passed to a call that cannot be resolved statically", e.describe(ts))
 		}
 		for _, arg := range c.Args {
 			if sp.isOwner(derefT(arg.Type())) && st.held[Root(u.canon(arg))] != 0 {
-				a.recf(RReentry, in, callText(c, nil, sp.FuncName), Undecided, "the owner object is passed to a dynamically dispatched call while its lock is held; the callee may lock again")
+				a.recf(RReentry, in, callText(c, nil, sp.FuncName), NotDecided, "NOT DECIDED — the owner object is passed to a dynamically dispatched call while its lock is held; the callee may lock again")
 			}
 		}
 		return
@@ -1286,7 +1404,7 @@ func (a *bodyAn) applyCall(st *lstate, in ssa.Instruction, c *ssa.CallCommon, de
 	}
 	if u.inUnit[callee] && callee != u.top {
 		// closure of this unit, called (or deferred) here: same roots
-		sub := e.analyzeBody(u, callee, &lstate{held: copyHeld(st.held), pub: st.pub, allPub: st.allPub, over: map[Root]int{}}, a.ctx, false)
+		sub := e.analyzeBody(u, callee, &lstate{held: copyHeld(st.held), pub: st.pub, allPub: st.allPub, over: map[Root]int{}, unk: st.unk}, a.ctx, false)
 		for r, m := range sub.exit {
 			st.held[r] = m
 		}
@@ -1304,7 +1422,7 @@ func (a *bodyAn) applyCall(st *lstate, in ssa.Instruction, c *ssa.CallCommon, de
 		}
 		b := u.bind(c, callee)
 		if b.tooMany {
-			a.recf(RLockset, in, callText(c, callee, sp.FuncName), Undecided, "guarded values of more than %d different owners are passed to one call", len(extRoots))
+			a.recf(RLockset, in, callText(c, callee, sp.FuncName), NotDecided, "NOT DECIDED — guarded values of more than %d different owners are passed to one call", len(extRoots))
 		}
 		held := map[Root]int8{}
 		for r, m := range st.held {
@@ -1364,7 +1482,7 @@ func (a *bodyAn) applyCall(st *lstate, in ssa.Instruction, c *ssa.CallCommon, de
 	x := extKind(callee)
 	if tainted {
 		if x == nil {
-			a.recf(REscape, in, callText(c, callee, sp.FuncName), Undecided, "a guarded alias (%s) is passed to %s, which is not in the table of functions known not to retain their arguments", e.describe(ts), extName(callee))
+			a.recf(REscape, in, callText(c, callee, sp.FuncName), NotDecided, "NOT DECIDED — a guarded alias (%s) is passed to %s, which is not in the table of functions known not to retain their arguments", e.describe(ts), extName(callee))
 		} else {
 			seen := map[Root]bool{}
 			for _, t := range sortedTaints(ts) {
@@ -1382,7 +1500,7 @@ func (a *bodyAn) applyCall(st *lstate, in ssa.Instruction, c *ssa.CallCommon, de
 		for _, arg := range c.Args {
 			if mc, ok := arg.(*ssa.MakeClosure); ok {
 				if cf, ok := mc.Fn.(*ssa.Function); ok && u.inUnit[cf] {
-					e.analyzeBody(u, cf, &lstate{held: copyHeld(st.held), pub: st.pub, allPub: st.allPub, over: map[Root]int{}}, a.ctx, false)
+					e.analyzeBody(u, cf, &lstate{held: copyHeld(st.held), pub: st.pub, allPub: st.allPub, over: map[Root]int{}, unk: st.unk}, a.ctx, false)
 				}
 			}
 		}
@@ -1474,4 +1592,99 @@ func (a *bodyAn) builtin(st *lstate, in ssa.Instruction, name string, c *ssa.Cal
 			}
 		}
 	}
+}
+
+// muClosure reads a function value as a bound method value of the owner's mutex
+// (n.mu.Unlock, n.mu.RUnlock, n.mu.Lock …): directly, through a single-assignment local,
+// or as the result of a declared in-module function all of whose returns are such a value
+// on the mutex of one of its parameters (func (n *T) lock() func() { n.mu.Lock(); return
+// n.mu.Unlock }). Returns the operation and the owner root in the current function.
+func (a *bodyAn) muClosure(v ssa.Value, depth int) (op string, root Root, ok bool) {
+	if depth > 3 {
+		return "", nil, false
+	}
+	v = a.u.resolve(v)
+	switch x := v.(type) {
+	case *ssa.MakeClosure:
+		fn, isFn := x.Fn.(*ssa.Function)
+		if !isFn || len(x.Bindings) != 1 || !strings.HasPrefix(fn.Synthetic, "bound method wrapper") {
+			return "", nil, false
+		}
+		obj, _ := fn.Object().(*types.Func)
+		if obj == nil || obj.Pkg() == nil || obj.Pkg().Path() != "sync" {
+			return "", nil, false
+		}
+		for _, t := range a.unboxedOf(x.Bindings[0]) {
+			if t.K == KMu {
+				return obj.Name(), t.Root, true
+			}
+		}
+	case *ssa.UnOp:
+		if x.Op == token.MUL {
+			if c, isCell := a.u.resolve(x.X).(*ssa.Alloc); isCell {
+				if sts := a.u.cellStores(c); len(sts) == 1 {
+					return a.muClosure(sts[0].Val, depth+1)
+				}
+			}
+		}
+	case *ssa.Call:
+		callee := x.Call.StaticCallee()
+		if callee == nil || callee.Blocks == nil || !a.e.Spec.InModule(callee) || callee.Signature.Results().Len() != 1 {
+			return "", nil, false
+		}
+		nret := 0
+		param := -1
+		for _, b := range callee.Blocks {
+			for _, in := range b.Instrs {
+				ret, isRet := in.(*ssa.Return)
+				if !isRet || len(ret.Results) != 1 {
+					continue
+				}
+				nret++
+				mc, isMC := ret.Results[0].(*ssa.MakeClosure)
+				if !isMC || len(mc.Bindings) != 1 {
+					return "", nil, false
+				}
+				fn, isFn := mc.Fn.(*ssa.Function)
+				if !isFn || !strings.HasPrefix(fn.Synthetic, "bound method wrapper") {
+					return "", nil, false
+				}
+				obj, _ := fn.Object().(*types.Func)
+				if obj == nil || obj.Pkg() == nil || obj.Pkg().Path() != "sync" {
+					return "", nil, false
+				}
+				if op != "" && op != obj.Name() {
+					return "", nil, false
+				}
+				op = obj.Name()
+				fa, isFA := mc.Bindings[0].(*ssa.FieldAddr)
+				if !isFA || !a.e.Spec.isOwner(derefT(fa.X.Type())) {
+					return "", nil, false
+				}
+				st, _ := derefT(fa.X.Type()).Underlying().(*types.Struct)
+				if st == nil || st.Field(fa.Field) != a.e.Spec.Mu {
+					return "", nil, false
+				}
+				prm, isP := fa.X.(*ssa.Parameter)
+				if !isP {
+					return "", nil, false
+				}
+				k := -1
+				for i, q := range callee.Params {
+					if q == prm {
+						k = i
+					}
+				}
+				if k < 0 || (param >= 0 && param != k) {
+					return "", nil, false
+				}
+				param = k
+			}
+		}
+		if nret == 0 || param < 0 || param >= len(x.Call.Args) {
+			return "", nil, false
+		}
+		return op, Root(a.u.canon(x.Call.Args[param])), true
+	}
+	return "", nil, false
 }
